@@ -192,12 +192,13 @@ PROPS = {
     },
     "C14": {
         "thm": "SameVerif.Thm.C14",
-        "suites": ["sigflush"],
-        "spec_filter": r"^spec\.sig (c14|c14ref) ",
+        "suites": ["sigflush", "app"],
+        "needs_samedec": True,
+        "spec_filter": r"^spec\.(sig (c14|c14ref)|c11) ",
         "technique": "Lean 4 theorems on the receiver model (a pending result is emitted at the first NoCarrier tick at or after its deadline, under the change filter; 4 s of samples contain more ticks than latency + hold) + close-cut recordings at every rate through the real flush() loop",
         "level_text": "Proved in Lean: while a result is pending the reported transport state differs from it (invariant), so the change filter passes it; over any run of NoCarrier ticks that reaches the pending deadline the message event is emitted exactly at the first tick with symbol count >= deadline and the slot is emptied (also in the presence of the forced-EOM timer: first or second due tick); arithmetic over the generated constants: if ticks are at most rate/260 samples apart (half the nominal symbol rate - a deliberately weak clock assumption), 4*rate samples contain >= 1040 ticks > 300 + MAX_INTERBURST_SYMBOLS + 1. "
                       "Sampled on the real receiver: header-only (2 or 3 bursts), full transmissions (2 or 3 trailer bursts) and 252-byte headers, cut at the last sample of the final burst, +1 sample, +2..200 samples and random points up to 2.2 s later, at 3 (quick) / 8 (thorough) rates: messages before the cut plus those from repeated flush() are exactly the transmission's messages, then None twice.",
-        "level_note": "The tick rate on zeros and the release latency L are front-end facts (sampled). The command-line side (prints before exit) is C11.",
+        "level_note": "The tick rate on zeros and the release latency L are front-end facts (sampled). The command-line clause (\"the command-line program prints them before exiting\") is checked here too: the app suite (real samedec binary; directed end-of-input cases 8..15: a header without trailer or a lone trailer burst cut on the last sample, without and with a child attached at that moment) judged by the C11 printed-output oracle; the state-machine theorems are C11's.",
         "rule": "sigflush: rate x {header3, header2, full3, full2, long_header3} x 7 (quick) / 50 (thorough) cut offsets. Non-trivial = every case.",
         "exhaustive": False,
         "assumptions": ["FE4: the symbol clock on silence stays above half its nominal rate", "release latency <= 300 ticks (sampled)"],
